@@ -375,8 +375,24 @@ def tok(x, _simple=(int, str, type(None), bool)):
 
 
 def _closure_cell(fn, name):
-    code = fn.__code__
-    return fn.__closure__[code.co_freevars.index(name)].cell_contents
+    """the cache object held in the decorator's closure, or None when it cannot be located (a refactoring of the
+    decorator must degrade this check to its behavioural oracle, never turn into an alarm)"""
+    try:
+        code = fn.__code__
+        c = fn.__closure__[code.co_freevars.index(name)].cell_contents
+    except (AttributeError, ValueError, IndexError, TypeError):
+        c = None
+        for cell in (getattr(fn, "__closure__", None) or ()):
+            try:
+                x = cell.cell_contents
+            except ValueError:
+                continue
+            if type(x).__name__ == "LRUCache":
+                c = x
+                break
+    if c is None or not all(hasattr(c, a) for a in ("values", "items", "__len__")):
+        return None
+    return c
 
 
 def _outcome(e):
@@ -593,6 +609,8 @@ class AlruRT(Runtime):
         if v is not None:
             return [v]
         # cache content (explicit parts of the statement: no entry after a raise, <= maxsize, LRU victim)
+        if self.cache is None:
+            return []
         real_vals = [tok(x) for x in self.cache.values()]
         ref_vals = [e[0] for e in ref.values()]
         if len(real_vals) > self.maxsize:
@@ -610,11 +628,11 @@ class AlruRT(Runtime):
     def canon(self):
         w = self.w
         return (tuple([(k, e[0]) for k, e in self.ref.items()]),
-                tuple([(tok(k), tok(v)) for k, v in self.cache.items()]),
+                tuple([(tok(k), tok(v)) for k, v in self.cache.items()]) if self.cache is not None else None,
                 len(w.runs))
 
     def nontrivial(self):
-        return len(self.ref) > 0 or len(self.cache) > 0
+        return len(self.ref) > 0 or (self.cache is not None and len(self.cache) > 0)
 
 
 class AcpiRT(Runtime):
